@@ -334,7 +334,10 @@ def evaluate__exp(self: XPathFunction, context: ta.ContextType = None) -> ta.One
     arg: ta.NumericType = self.get_argument(self.context or context, cls=NumericProxy)
     if arg is None:
         return []
-    return math.exp(arg)
+    try:
+        return math.exp(float(arg))
+    except OverflowError:
+        return math.inf
 
 
 @method(function('exp10', prefix='math', nargs=1, sequence_types=('xs:double?', 'xs:double?')))
@@ -342,7 +345,10 @@ def evaluate__exp10(self: XPathFunction, context: ta.ContextType = None) -> ta.O
     arg: ta.NumericType = self.get_argument(self.context or context, cls=NumericProxy)
     if arg is None:
         return []
-    return float(10 ** arg)
+    try:
+        return 10.0 ** float(arg)
+    except OverflowError:
+        return math.inf
 
 
 @method(function('log', prefix='math', nargs=1, sequence_types=('xs:double?', 'xs:double?')))
@@ -374,10 +380,16 @@ def evaluate__pow(self: XPathFunction, context: ta.ContextType = None) -> ta.One
     elif not x and y < 0:
         return math.copysign(float('inf'), x) if (y % 2) == 1 else float('inf')
 
+    x = float(x)
+    if not isinstance(y, int):
+        y = float(y)
+
     try:
         return float(x ** y)
     except TypeError:
         return math.nan
+    except OverflowError:
+        return -math.inf if x < 0 and y % 2 == 1 else math.inf
 
 
 @method(function('sqrt', prefix='math', nargs=1,
@@ -461,7 +473,7 @@ def evaluate__atan2(self: XPathFunction, context: ta.ContextType = None) -> ta.O
     if self.context is not None:
         context = self.context
 
-    x = self.get_argument(context, cls=NumericProxy)
+    x = self.get_argument(context, required=True, cls=NumericProxy)
     y = self.get_argument(context, index=1, required=True, cls=NumericProxy)
     return math.atan2(x, y)
 
